@@ -346,6 +346,21 @@ func Corpus(o Options) []Case {
 		sig("param same name as type", "M(LT LT) LT")
 		sig("result func", "M() func(int, ...string) error")
 		sig("many methods", "A(a int) int\n\tB(b string) string\n\tC(c bool) bool\n\tD()")
+		{
+			// sizes beyond anything a fixed-size table or buffer might assume
+			var ms, ps, rs []string
+			for i := 0; i < 70; i++ {
+				ms = append(ms, fmt.Sprintf("Meth%02d(a int, v ...string) (int, error)", i))
+			}
+			for i := 0; i < 40; i++ {
+				ps = append(ps, fmt.Sprintf("p%02d %s", i, []string{"int", "string", "dep.T", "[]byte", "map[string]LT"}[i%5]))
+			}
+			for i := 0; i < 12; i++ {
+				rs = append(rs, []string{"int", "string", "*LT", "error"}[i%4])
+			}
+			sig("seventy methods", strings.Join(ms, "\n\t"))
+			sig("forty parameters twelve results", "M("+strings.Join(ps, ", ")+") ("+strings.Join(rs, ", ")+")")
+		}
 		sig("method names near the mock vocabulary", "Func(a int) int\n\tCall() int\n\tReturns(a int) int\n\tExpect(s string)")
 		// ---- interface forms
 		form := func(id, tparams string, nT int, body string, methods []string, targs [][]string, extra string) {
